@@ -348,6 +348,12 @@ func (e *Explorer) explicit(prop string, c Cfg, buf []byte, p, q int, F []fresh)
 }
 
 func (e *Explorer) shifted(c Cfg, text []byte, F []fresh, k int) {
+	if k < 0 { // -1: the text ends exactly at the 65 535 limit, -2: one byte before it, ...
+		k = 65535 + 1 + k - len(text)
+		if k <= 0 {
+			return
+		}
+	}
 	if k+len(text) > 65535 {
 		return
 	}
